@@ -58,6 +58,17 @@ package ring
 //@   at after@atomic.Int32.Inc#0: sig := true
 //@   at after@atomic.Int32.Inc#2: sig := true
 //@   at after@atomic.Int32.Dec#1: fin := true
+//@   # what reaches the waiting caller: the error channel is written exactly when this replica call makes the FIRST key of the
+//@   # batch fail, the done channel exactly when it completes the LAST outstanding key (the channel sends themselves are
+//@   # abstracted; the ghost flags are set at the send statements)
+//@   ghost var es bool = false
+//@   ghost var ds bool = false
+//@   loop 0 head es := false
+//@   loop 0 head ds := false
+//@   at send@b.err: es := true
+//@   at send@b.done: ds := true
+//@   loop 0 end assert err_delivery: es <==> (sig && b.rpcsFailed.v == 1)
+//@   loop 0 end assert done_delivery: ds <==> (fin && b.rpcsPending.v == 0)
 //@   # a failed replica call: the key's failure is signalled exactly when its error family now exceeds the key's tolerance,
 //@   # or when this was the key's last outstanding replica
 //@   loop 0 end assert fail_fast: err != nil ==> !fin && (sig <==> (errCount > it.maxFailures || it.remaining.v == 0))
